@@ -41,7 +41,7 @@ a wrong final annotation; the observation-guard side is C02 R-C02a.
 from __future__ import annotations
 
 import ast
-from typing import List, Optional, Set
+from typing import Dict, List, Optional, Set
 
 from ..cfg import cfg_of
 from ..flow import defuse, names_in
@@ -639,6 +639,7 @@ def run(res: Results, idx: Index, tier: str) -> None:
     rule_h(res, idx)
     res.rule("R-C08k", "size-1 constants are left out of the refresh's broadcast merge only when their rank cannot lift the result's rank", floor=1)
     rule_k(res, idx)
+    rule_l(res, idx)
     res.rule("R-C08j", "the shape stamped on a plugin-emitted Transpose output is the operand's shape gathered through the permutation", floor=8)
     rule_j(res, idx)
 
@@ -872,3 +873,113 @@ def rule_k(res: Results, idx: Index) -> None:
         else:
             res.violation("R-C08k", f"{OPT}:{st.lineno}", key, f"`{src(st.test, 60)}` leaves every size-1 constant out of the broadcast merge, whatever its rank: for `maximum(x[3], c[1,1])` the output is declared "
                           "`[3]` although the operator returns shape (1,3) — also when that value is a graph output", f.qualname)
+
+
+# ---------------------------------------------------------------------------------------------- R-C08l
+_ROLE_OF_PREFIX = {"lhs": 0, "rhs": 1, "out": 2}
+
+
+def rule_l(res: Results, idx: Index) -> None:
+    """Convolution lowerings move operands and result between the user's layouts (`dimension_numbers` = lhs, rhs, out
+    specification) and the canonical ONNX layout.  A shape declared as `tuple(S[i] for i in P)` is right only when the
+    permutation P starts from the layout of the SAME tensor the shape S belongs to: the data operand's shape with the
+    data layout, the result's shape with the OUTPUT layout.  With equal lhs and out specifications both choices coincide
+    (every layer and test), with mixed specifications the declared shape of the raw Conv result is a different
+    permutation of the true one.  Roles: position in `lhs_spec, rhs_spec, out_spec = dimension_numbers` and in
+    `eqn.invars[:2]` / `eqn.outvars[0]`; for helper functions that take the layouts as parameters, the parameter-name
+    prefix."""
+    res.rule("R-C08l", "a shape declared as a permutation of tensor X's shape uses a permutation that starts from X's own layout specification (lhs / rhs / out)", floor=3)
+    from ..flow import defuse, names_in
+    n = 0
+    for m in idx.product_modules():
+        if "/plugins/" not in m.rel or "_perm(" not in m.src:
+            continue
+        for fi in m.funcs.values():
+            du = defuse(fi.node)
+            spec_role: Dict[str, int] = {}
+            var_role: Dict[str, int] = {}
+            for nm, ds in du.defs.items():
+                for d in ds:
+                    if d.kind == "unpack" and d.index is not None and d.value is not None:
+                        t = src(d.value, 60)
+                        if "dimension_numbers" in t:
+                            spec_role[nm] = d.index
+                        elif "invars" in t:
+                            var_role[nm] = d.index
+                    elif d.kind == "assign" and d.value is not None and "outvars" in src(d.value, 60) and isinstance(d.value, ast.Subscript):
+                        var_role[nm] = 2
+                    elif d.kind == "param":
+                        pre = nm.split("_")[0]
+                        if pre in _ROLE_OF_PREFIX and nm.endswith(("_layout", "_spec")):
+                            spec_role[nm] = _ROLE_OF_PREFIX[pre]
+                        if pre in _ROLE_OF_PREFIX and nm.endswith(("_shape", "_var", "_dims")):
+                            var_role[nm] = _ROLE_OF_PREFIX[pre]
+            if not spec_role or not var_role:
+                continue
+
+            def roles(expr: ast.AST, table: Dict[str, int]) -> Set[int]:
+                names = set(names_in(expr))
+                # stop the walk at role carriers: `out_spec` is re-bound later to the output VALUE in some lowerings
+                out: Set[int] = set()
+                seen: Set[str] = set()
+                todo = list(names)
+                while todo:
+                    x = todo.pop()
+                    if x in seen:
+                        continue
+                    seen.add(x)
+                    if x in table:
+                        out.add(table[x])
+                        continue
+                    for d in du.defs.get(x, []):
+                        if d.value is not None:
+                            todo.extend(names_in(d.value))
+                return out
+
+            def perm_sources(p: ast.AST) -> List[ast.Call]:
+                out: List[ast.Call] = []
+                seen: Set[str] = set()
+
+                def visit(e: ast.AST):
+                    for x in ast.walk(e):
+                        if isinstance(x, ast.Call) and (call_name(x) or "").split(".")[-1] == "_perm" and len(x.args) == 2:
+                            out.append(x)
+                        elif isinstance(x, ast.Name) and x.id not in seen:
+                            seen.add(x.id)
+                            ds = [d for d in du.defs.get(x.id, []) if d.value is not None and d.kind in ("assign", "walrus")]
+                            before = [d for d in ds if getattr(d.stmt, "lineno", 0) <= getattr(x, "lineno", 0)]
+                            if before:      # the textually nearest preceding binding (names such as `perm` are re-bound per operand)
+                                last = max(getattr(d.stmt, "lineno", 0) for d in before)
+                                ds = [d for d in before if getattr(d.stmt, "lineno", 0) == last]
+                            for d in ds:
+                                visit(d.value)
+                visit(p)
+                return out
+            for comp in walk_no_nested(fi.node):
+                if not isinstance(comp, (ast.GeneratorExp, ast.ListComp)) or len(comp.generators) != 1:
+                    continue
+                g = comp.generators[0]
+                if not (isinstance(comp.elt, ast.Subscript) and isinstance(g.target, ast.Name) and isinstance(comp.elt.slice, ast.Name) and comp.elt.slice.id == g.target.id):
+                    continue
+                perms = perm_sources(g.iter)
+                if not perms:
+                    continue
+                n += 1
+                key = f"{m.rel}::{fi.qualname}::permuted-shape::{src(comp.elt.value, 30)}<-{src(g.iter, 30)}"
+                site = f"{m.rel}:{comp.lineno}"
+                xr = roles(comp.elt.value, var_role)
+                if len(xr) != 1:
+                    res.unresolved("R-C08l", site, key, f"tensor role of `{src(comp.elt.value, 30)}` not unique: {sorted(xr)}", fi.qualname)
+                    continue
+                bad = None
+                for pc in perms:
+                    pr = roles(pc.args[0], spec_role)
+                    if len(pr) == 1 and pr != xr:
+                        bad = (pc, pr)
+                names_ = {0: "lhs (data operand)", 1: "rhs (kernel)", 2: "out (result)"}
+                if bad is not None:
+                    res.violation("R-C08l", site, key, f"`{src(comp, 60)}` declares a permutation of the {names_[next(iter(xr))]} shape, but `{src(bad[0], 50)}` starts from the {names_[next(iter(bad[1]))]} layout: with "
+                                  f"dimension_numbers whose lhs and out specifications differ the declared shape is not the shape the operator returns", fi.qualname)
+                else:
+                    res.ok("R-C08l", site, key, f"permutation starts from the {names_[next(iter(xr))]} layout", fi.qualname)
+    res.analysed["permuted_shape_declarations"] = n
